@@ -136,6 +136,9 @@ var sites = []site{
 	{Name: "permission-all", Tmpl: "on: push\npermissions: @Q@\njobs:\n  test:\n    runs-on: ubuntu-latest\n    steps:\n      - run: echo\n"},
 	{Name: "event-name", Tmpl: "on: [push, @Q@]\njobs:\n  test:\n    runs-on: ubuntu-latest\n    steps:\n      - run: echo\n"},
 	{Name: "event-name-map", Tmpl: "on:\n  @Q@:\njobs:\n  test:\n    runs-on: ubuntu-latest\n    steps:\n      - run: echo\n"},
+	{Name: "event-name-map-scalar", Tmpl: "on:\n  @Q@: 1\njobs:\n  test:\n    runs-on: ubuntu-latest\n    steps:\n      - run: echo\n"},
+	{Name: "event-name-map-dup-key", Tmpl: "on:\n  @Q@:\n    branches: a\n    branches: b\n    nope: c\njobs:\n  test:\n    runs-on: ubuntu-latest\n    steps:\n      - run: echo\n"},
+	{Name: "event-name-map-seq", Tmpl: "on:\n  @Q@: [a]\njobs:\n  test:\n    runs-on: ubuntu-latest\n    steps:\n      - run: echo\n"},
 	{Name: "event-type", Tmpl: "on:\n  issues:\n    types: [@Q@]\njobs:\n  test:\n    runs-on: ubuntu-latest\n    steps:\n      - run: echo\n"},
 	{Name: "action-input", Tmpl: hdr + "      - uses: actions/checkout@v4\n        with:\n          @Q@: 1\n"},
 	{Name: "needs", Tmpl: "on: push\njobs:\n  test:\n    needs: [@Q@]\n    runs-on: ubuntu-latest\n    steps:\n      - run: echo\n"},
@@ -691,8 +694,16 @@ func partD(l *layout, sum *hx.Summary) {
 	tmpl := "{{range $ := .}}{{$.Filepath}}:{{$.Line}}:{{$.Column}}: {{$.Message}} [{{$.Kind}}]\n{{end}}"
 	for _, ord := range orders {
 		var files []string
-		for _, i := range ord {
-			files = append(files, filepath.Join(".github", "workflows", names[i]))
+		for k, i := range ord {
+			f := filepath.Join(".github", "workflows", names[i])
+			// spellings that are not canonical: the rendered file name is the one of the returned diagnostic
+			switch (k + len(ord) + ord[0]) % 3 {
+			case 1:
+				f = "./" + f
+			case 2:
+				f = ".github/../.github/workflows//" + names[i]
+			}
+			files = append(files, f)
 		}
 		heads := func(out string) []string {
 			var hs []string
@@ -727,7 +738,7 @@ func partD(l *layout, sum *hx.Summary) {
 				return failure{What: what, Key: fmt.Sprintf("c16:multi-file-order:%s:mode=%s", class, mode), Mode: mode, Detail: fmt.Sprintf("files=%v\nreturned:\n%s\nrendered:\n%s", files, strings.Join(want, "\n"), strings.Join(got, "\n"))}
 			}
 			if strings.Join(got, "\n") != strings.Join(want, "\n") {
-				sum.OracleFails = append(sum.OracleFails, mk("the rendering of a multi-file run is not in the order of the diagnostics the library returns", "rendered-vs-returned"))
+				sum.OracleFails = append(sum.OracleFails, mk("the rendering of a multi-file run is not the list of diagnostics the library returns (same order, file name as given, position, message)", "rendered-vs-returned"))
 			}
 			// the returned diagnostics are grouped by file in argument order
 			pos := map[string]int{}
